@@ -169,6 +169,12 @@ def r14_3(chk, facts):
             site = U.site(fn, '%s index conversion#%d' % (ovl[(fn['file'], fn['l'])], i + 1))
             if site in seen: continue
             seen.add(site)
+            # the index is parsed into an unsigned type: with a signed one dec_to_integer accepts a leading '-' ("-0" would address element 0)
+            a2 = (c.get('args') or [None, None, None])[2] if len(c.get('args') or []) > 2 else None
+            it = fn['_types'][a2['t'] - 1].replace('const ', '').strip() if a2 is not None and a2.get('t') else ''
+            if ok and not (it.startswith('unsigned') or it in ('size_t', 'std::size_t', 'uint64_t', 'uint32_t')):
+                chk.fail('R14.3', site + ' type', fn['file'], c.get('l'), 'the array index in %s is parsed into `%s`: a signed type makes dec_to_integer accept a minus sign, so "-0" addresses element 0 (RFC 6901 array indices are unsigned digit strings)' % (fn['n'], it), None, fn['q'])
+                continue
             if ok: chk.ok('R14.3', site, {'function': fn['q'], 'line': c.get('l')})
             else:
                 chk.fail('R14.3', site, fn['file'], c.get('l'), 'array index parsed with dec_to_integer in %s without rejecting leading zeros (RFC 6901 section 4: "/01" is not index 1)' % fn['n'], None, fn['q'])
